@@ -364,6 +364,19 @@ def bounded(b):
                 plain = list(sc.iter_unfolded_parts(part, update_ids=False))
                 b.case("unfold/no_repeat_structure_gives_equal_part", len(plain) == 1 and _same_content(part, plain[0]), case,
                        "a part without repeat structure does not unfold to an equal part")
+            # ids suffixed with the visit number (the default of iter_unfolded_parts), whatever the number of variants: the k-th copy
+            # of a note in time order is called <id>-k
+            onames = {(x.step, x.octave): x.id for x in part.iter_all(sc.Note)}
+            okid, whatid = True, ""
+            for vi, v in enumerate(variants):
+                seen = {}
+                for nt in sorted(v.iter_all(sc.Note), key=lambda x: x.start.t):
+                    key_ = (nt.step, nt.octave)
+                    seen[key_] = seen.get(key_, 0) + 1
+                    if key_ in onames and nt.id != "%s-%d" % (onames[key_], seen[key_]):
+                        okid, whatid = False, "variant %d of %d: copy %d of note %s is called %r" % (vi + 1, len(variants), seen[key_], onames[key_], nt.id)
+            if len(onames) == len(list(part.iter_all(sc.Note))):
+                b.case("unfold/per_visit_copies", okid, dict(case, entry="iter_unfolded_parts"), whatid, nontrivial=nontriv)
             for v in variants:
                 left = [type(o).__name__ for cls in (sc.Repeat, sc.Ending, sc.DaCapo, sc.DalSegno, sc.ToCoda) for o in v.iter_all(cls)]
                 b.case("unfold/no_repeat_marks_left", not left, case, "unfolded part still contains %r" % left, nontrivial=nontriv)
